@@ -8,6 +8,7 @@
 (*   merge / json                    every PATCH of the operator as the    *)
 (*                                   server applied (or refused) it        *)
 (*   enter / flagseen / cancel / exit(h), tick(h)   the user's functions   *)
+(*   pause / resume              the peer.eval hook: the toggle flips      *)
 (*   stop / closed / down / quiet                                          *)
 (* Every event is bound to the action of Spawning it claims to be; the     *)
 (* stages of stop_daemons, the sleeps, the killer and the clock are        *)
@@ -25,7 +26,7 @@ E == T[l]
 
 ConfOf(c) == [dh |-> [h \in Hs |-> [kind |-> c.dh[h].kind, backoff |-> c.dh[h].backoff, timeout |-> c.dh[h].timeout,
                                     sync |-> c.dh[h].sync, react |-> "any", lat |-> -1]],
-              polling |-> c.polling, filter |-> c.filter, prompt |-> FALSE, exitto |-> c.exitto]
+              polling |-> c.polling, filter |-> c.filter, prompt |-> FALSE, exitto |-> c.exitto, peering |-> c.peering]
 TInit ==
   /\ tid \in 1..Len(Traces) /\ l = 1 /\ bad = "none"
   /\ conf = ConfOf(Traces[tid].conf)
@@ -33,8 +34,8 @@ TInit ==
   /\ chan = << Snap("ADDED", obj) >> /\ bl = <<>>
   /\ up = TRUE /\ stopping = FALSE /\ mem = FreshMem /\ run = [h \in Hs |-> NoRun]
   /\ pc = "idle" /\ cyc = NoCyc /\ now = Traces[tid].init.t
-  /\ bud = [edits |-> 0, toggles |-> 0, deletes |-> 0, force |-> 0, stops |-> 0, kills |-> 0]
-  /\ gh = [early |-> FALSE, respawned |-> FALSE, killer |-> FALSE, exitwhen |-> 0, rematch |-> {}, double |-> FALSE, delat |-> 0, stopat |-> 0, closed |-> FALSE, racy |-> {}]
+  /\ bud = [edits |-> 0, toggles |-> 0, deletes |-> 0, force |-> 0, stops |-> 0, kills |-> 0, pauses |-> 0]
+  /\ gh = [early |-> FALSE, respawned |-> FALSE, killer |-> FALSE, exitwhen |-> 0, rematch |-> {}, double |-> FALSE, delat |-> 0, stopat |-> 0, closed |-> FALSE, racy |-> {}, paused |-> FALSE, pclosed |-> FALSE, needlist |-> FALSE, nextpass |-> 0]
 
 Ev(e) == l <= Len(T) /\ E.ev = e /\ E.t = now /\ l' = l + 1 /\ UNCHANGED tid
 Keep == UNCHANGED <<tid, l>>
@@ -55,23 +56,25 @@ TJson    == Ev("json") /\ SrvJson
 TEnter   == Ev("enter") /\ IF up THEN DEnter(E.h) ELSE UNCHANGED vars
 TSeen    == Ev("flagseen") /\ IF up THEN DSeeFlag(E.h) ELSE UNCHANGED vars
 \* a CancelledError arrives: asked for by a stage of the stop, by the exiting killer - or by the final sweep of an exiting operator
-SweepCancel(h) == /\ up /\ stopping /\ gh.killer /\ Alive(h) /\ ~run[h].cdel /\ ~DH[h].sync
-                  /\ run' = [run EXCEPT ![h].creq = TRUE, ![h].cdel = TRUE]
+SweepCancel(h) == /\ up /\ stopping /\ gh.killer /\ Alive(h) /\ ~DH[h].sync
+                  /\ run' = [run EXCEPT ![h].cdel = TRUE]
                   /\ UNCHANGED <<obj, chan, bl, up, stopping, mem, pc, cyc, now, bud, gh, conf>>
 \* (a function that swallows the error is cancelled again by the later sweeps of the exit)
-TCancel  == Ev("cancel") /\ IF ~up THEN UNCHANGED vars
-                            ELSE IF run[E.h].cdel /\ stopping /\ gh.killer /\ Alive(E.h) THEN UNCHANGED vars
-                            ELSE IF run[E.h].creq THEN DCancelled(E.h) ELSE SweepCancel(E.h)
+TCancel  == Ev("cancel") /\ IF ~up THEN UNCHANGED vars ELSE IF run[E.h].creq THEN DCancelled(E.h) ELSE SweepCancel(E.h)
 TExit    == Ev("exit") /\ IF up THEN DExit(E.h) ELSE UNCHANGED vars
 \* a timer's function runs only while its instance is registered and has not been told to stop
 TTick    == Ev("tick") /\ (~up \/ (run[E.h].on /\ ~run[E.h].flag)) /\ UNCHANGED vars
+TPause   == Ev("pause") /\ Pause
+TResume  == Ev("resume") /\ Resume
+\* the watcher's listing after a resume
+TList    == Ev("list") /\ Relist /\ (IF E.rv = 0 THEN ~obj.exists ELSE obj.exists /\ obj.rv = E.rv)
 TStop    == Ev("stop") /\ Stop
 TClosed  == Ev("closed") /\ StreamEnd
 TDown    == Ev("down") /\ Down
 TQuiet   == Ev("quiet") /\ ~ENABLED Urgent /\ (up => chan = <<>> /\ bl = <<>>) /\ UNCHANGED vars
 
-Silent == ((\E h \in Hs : StopSet(h) \/ Stage(h) \/ StageC(h) \/ ExitCancel(h) \/ REnd(h)) \/ ProcFinish \/ Reply1 \/ SleepWake \/ SleepExpire
-           \/ WorkerAbort \/ KillerExit) /\ Keep
+Silent == ((\E h \in Hs : StopSet(h) \/ Stage(h) \/ StageC(h) \/ KCancel(h) \/ KDrop(h) \/ REnd(h)) \/ ProcFinish \/ Reply1 \/ SleepWake \/ SleepExpire
+           \/ WorkerAbort \/ KillerExit \/ KillerPass \/ PauseClose) /\ Keep
 Advance == /\ l <= Len(T) /\ E.t > now /\ ~ENABLED Urgent
            /\ now' = now + 1          \* second by second: a deadline in between may not be jumped over
            /\ UNCHANGED <<obj, chan, bl, up, stopping, mem, run, pc, cyc, bud, gh, conf, tid, l>>
@@ -88,7 +91,7 @@ RestBad == IF ~StartOnMatch THEN "matching_object_without_live_instance"
            ELSE "none"
 
 TStep == TEdit \/ TDelete \/ TForce \/ TDeliver \/ TBegin \/ TEnd \/ TMerge \/ TJson \/ TEnter \/ TSeen \/ TCancel \/ TExit \/ TTick
-         \/ TStop \/ TClosed \/ TDown \/ TQuiet \/ Silent \/ Advance
+         \/ TPause \/ TResume \/ TList \/ TStop \/ TClosed \/ TDown \/ TQuiet \/ Silent \/ Advance
 \* ... and when the exit begins: instances whose memory was forgotten with the vanished object are still there (F5)
 Orphans == ~obj.exists /\ chan = <<>> /\ bl = <<>> /\ pc = "idle" /\ \E h \in Hs : run[h].on /\ ~run[h].vis
 TNext == /\ TStep /\ conf' = conf
